@@ -300,9 +300,16 @@ func (c *Collection) WriteUpdateWithXattrs(
 		if updatedDoc.Expiry != nil {
 			exp = *updatedDoc.Expiry
 		}
-		// update the mutate in options if necessary
+		// update the mutate in options if necessary: for this attempt only, and in a copy - the specs of
+		// an attempt that is refused must not reach the next one, nor the caller's struct (which may be nil)
+		opts := opts
 		if updatedDoc.Spec != nil {
-			opts.MacroExpansion = append(opts.MacroExpansion, updatedDoc.Spec...)
+			attemptOpts := sgbucket.MutateInOptions{}
+			if opts != nil {
+				attemptOpts = *opts
+			}
+			attemptOpts.MacroExpansion = append(append([]sgbucket.MacroExpansionSpec(nil), attemptOpts.MacroExpansion...), updatedDoc.Spec...)
+			opts = &attemptOpts
 		}
 		if updatedDoc.IsTombstone {
 			deleteBody := previous.Body != nil
